@@ -95,8 +95,18 @@ Fixpoint nearest (fuel : nat) (crit : list item) (p : list N) (over : N) (t2 : Z
 
 Definition vb_state := (list N * list Z * N)%type.   (* partition, part_loads, algo_iterations *)
 
-(* one turn of the `loop`.  Panic 3: `unwrap` of minmax on an empty vector. *)
-Definition vb_step (flt : bool) (crit : list item) (st : vb_state) : vb_state + res (list N * N) :=
+(* the progress test added by fix 98041ea, after the stop test:
+     let new_overweight_load = part_loads[overweight_part] - nearest_weight;
+     let mut new_underweight_load = part_loads[underweight_part]; new_underweight_load += nearest_weight;
+     if new_overweight_load < new_underweight_load
+         && !(new_underweight_load - new_overweight_load < imbalance) { break; }
+   (on integers it never fires: Proofs/VnBestProofs.v, vb_guard_never) *)
+Definition vb_guard (lo lu w : Z) : bool :=
+  (lo - w <? lu + w) && negb ((lu + w) - (lo - w) <? lo - lu).
+
+(* one turn of the `loop`; [guard] = with the progress test (the current code) or without it (the loop
+   before fix 98041ea).  Panic 3: `unwrap` of minmax on an empty vector. *)
+Definition vb_step_g (guard : bool) (flt : bool) (crit : list item) (st : vb_state) : vb_state + res (list N * N) :=
   let '(p, L, n) := st in
   match minmax_pos L with
   | None => inr (Panic 3)
@@ -115,6 +125,7 @@ Definition vb_step (flt : bool) (crit : list item) (st : vb_state) : vb_state + 
         | None => inr (Panic 2)
         | Some (w, id) =>
           if (imbalance <=? w) || (w =? 0) then inr (Ok (p, n))
+          else if guard && vb_guard lo lu w then inr (Ok (p, n))
           else if Nat.ltb id (length p) then
             let L1 := set_nth L over (lo - w) in
             match nth_opt L1 under with
@@ -130,6 +141,9 @@ Definition vb_step (flt : bool) (crit : list item) (st : vb_state) : vb_state + 
     | _, _ => inr (Panic 2)
     end
   end.
+
+Definition vb_step := vb_step_g true.     (* the code as it is *)
+Definition vb_step0 := vb_step_g false.   (* without the progress test *)
 
 Definition sumsq (l : list Z) : Z := sumZ (map (fun x => x * x) l).
 
